@@ -58,9 +58,9 @@ def check(run):
     groups = collections.OrderedDict()
     for b in bad:
         case = executed[owner[b["line"]]][0][0]
-        groups.setdefault((b["why"], case["dom"]), []).append({"case": case, "witness_point": b.get("pt"), "event": json.loads(lines[b["line"]])})
-    for (why, dom), wit in groups.items():
-        run.violation({"why": why, "dom": dom}, {"witnesses": wit[:3], "count": len(wit)})
+        groups.setdefault((b["why"], case["dom"], case["ovf"]), []).append({"case": case, "witness_point": b.get("pt"), "event": json.loads(lines[b["line"]])})
+    for (why, dom, ovf), wit in groups.items():
+        run.violation({"why": why, "dom": dom, "overflow": ["wraps", "undefined", "impossible"][ovf]}, {"witnesses": wit[:3], "count": len(wit)})
     run.assumptions += ["widths 32 and 64 are not sampled (TLC integers are 32-bit): only the 8- and 16-bit types",
                         "products have no wrap_assign; their drop_some_non_integer_points is judged in the C10 pipeline (verdict prefix C17)",
                         "a discarded point outside the sample lattice is not seen; contains_integer_point is only refuted in the `false' direction"]
